@@ -14,6 +14,14 @@ Theorem c16_consts_spec :
 Proof. exact (conj consts_spec_l consts_data_l). Qed.
 Print Assumptions c16_consts_spec.
 
+(* regenerated: New(WithServerRateLimit(101, 102, 103, 104)) hands exactly these four values, in
+   this order, to the server's limiter, and private addresses are not allowed unless asked for *)
+Theorem c16_options_wiring :
+  opt_wire_rpm = 101 /\ opt_wire_per_peer = 102 /\ opt_wire_dial_data = 103 /\
+  opt_wire_max_concurrent = 104 /\ opt_wire_allow_private_default = 0 /\ default_allow_private = 0.
+Proof. exact options_wiring_l. Qed.
+Print Assumptions c16_options_wiring.
+
 (* ---- rate limiter ------------------------------------------------------- *)
 (* THE limiter property on traces: for every configuration and every history
    of Accept / AcceptDialDataRequest / CompleteRequest / Close on a clock that
